@@ -279,6 +279,11 @@ func (b *windowTimeBuffer) insert(p edge.PointMessage) {
 	// Check if we need to wrap around
 	if len(b.window) == cap(b.window) && b.stop == len(b.window) {
 		b.stop = 0
+		if b.size == 0 {
+			// The buffer is empty so start must wrap around with stop,
+			// otherwise it would point past the end of the window.
+			b.start = 0
+		}
 	}
 
 	// Insert point
@@ -301,6 +306,10 @@ func (b *windowTimeBuffer) purge(oldest time.Time, inclusive bool) {
 	}
 	l := len(b.window)
 	if l == 0 {
+		return
+	}
+	if b.size == 0 {
+		// Nothing to purge, do not resurrect stale entries.
 		return
 	}
 	if b.start < b.stop {
